@@ -29,12 +29,13 @@ func OpenDB(opts badger.Options) (*badger.DB, error) {
 	if db != nil {
 		return db, nil
 	}
-	// small tables keep thousands of simulated disks cheap; a batch may be 15% of a table, so histories with multi-megabyte
-	// log entries ask for bigger ones (TableSize). The value threshold has no meaning without a value log.
-	opts = opts.WithDir("").WithValueDir("").WithInMemory(true).WithLogger(nil).WithMaxTableSize(TableSize).WithNumMemtables(2)
-	if int64(opts.ValueThreshold) > (15*TableSize)/100 {
-		opts = opts.WithValueThreshold(int((15 * TableSize) / 100))
-	}
+	// the simulated disk is the in-memory database the harness has always used (small tables keep thousands of them cheap;
+	// a write batch may be 15% of a table, so histories with multi-megabyte log entries ask for bigger ones: TableSize);
+	// from the server's own options it takes what decides whether a write is ACCEPTED: the largest value it admits
+	// (ValueLogFileSize) and read-only mode. Everything else about the server's options concerns files that do not exist here.
+	mem := badger.DefaultOptions("").WithInMemory(true).WithLogger(nil).WithMaxTableSize(TableSize).WithNumMemtables(2)
+	mem = mem.WithValueLogFileSize(opts.ValueLogFileSize).WithReadOnly(opts.ReadOnly)
+	opts = mem
 	db, err := badger.Open(opts)
 	if err != nil {
 		return nil, err
